@@ -2444,8 +2444,11 @@ impl<'a> Model<'a> {
                 }
 
                 //  We try to parse as number
-                if let Ok((v, number_format)) =
+                // (a number beyond the range of a double, like 1.8e308, is not a number)
+                if let Some((v, number_format)) =
                     parse_formatted_number(&value, &currencies, self.locale)
+                        .ok()
+                        .filter(|(v, _)| v.is_finite())
                 {
                     if let Some(num_fmt) = number_format {
                         // Should not apply the format in the following cases:
